@@ -36,8 +36,11 @@ RSubC01(x) == {x} \cup CASE x.r \in {"group", "rep", "uns"} -> RSubC01(x.body)
                          [] x.r = "alt" -> UNION {RSubC01(x.alts[i]) : i \in DOMAIN x.alts}
                          [] x.r = "seq" -> UNION {RSubC01(x.parts[i]) : i \in DOMAIN x.parts}
                          [] OTHER -> {}
-MergeableAltC01(x) == x.r = "alt" /\ \A i \in DOMAIN x.alts :
-                         x.alts[i].r = "lit" \/ (x.alts[i].r = "class" /\ ~x.alts[i].neg)
+\* (... also through a non-capturing group; and a class of one literal becomes that literal: no draw)
+CharLike(y) == y.r = "lit" \/ (y.r = "class" /\ ~y.neg)
+                \/ (y.r = "group" /\ y.kind = "noncap" /\ (y.body.r = "lit" \/ (y.body.r = "class" /\ ~y.body.neg)))
+MergeableAltC01(x) == \/ x.r = "alt" /\ \A i \in DOMAIN x.alts : CharLike(x.alts[i])
+                      \/ x.r = "class" /\ ~x.neg /\ Len(x.items) = 1 /\ x.items[1].ci = "lit"
 
 Drift(e) ==
   /\ e.tape # <<>> /\ \A j \in DOMAIN e.tape : e.tape[j] \in Selectors
